@@ -11,6 +11,7 @@ import XrsVerif.Proofs.ILViewshedInsProg
 import XrsVerif.Proofs.ILViewshedDel
 import XrsVerif.Proofs.ILViewshedLift
 import XrsVerif.Proofs.ILVsNV
+import XrsVerif.Proofs.ILVsSweepFill
 import Mathlib.Tactic.Positivity
 /-
   C05 -- viewshed marks a cell visible exactly when the line-of-sight model says so.
@@ -1168,6 +1169,126 @@ example [Trig ℚ] :
   intro s hh
   obtain ⟨_, _, _, h4⟩ := generated_event_list s 0 1 2 3 0 0 hh.1 _ hh.2
   rw [h4]; rfl
+
+/-! #### the sweep (`Gen.IL.vsSweep`, `_viewshed_cpu_sweep`)
+
+  The generated sweep is the template `sweepBody` around its four inlined status-tree routines (`vsSweep_is_template`, checked
+  by `rfl`).  Proved about it: the set-up (`generated_sweep_setup`), one iteration of the initial fill, and one iteration of
+  the event loop for each event type (`evBody_enter`, `evBody_exit`, `evBody_center` of Proofs/ILVsSweep*.lean) *in terms
+  of the inlined tree routines as black boxes*: `InsContract`, `DelContract`, `QryContract` say of the inlined copy what the
+  hand model says of the operation (`leafInsert` / `delCore` up to `Rebal`, the two-phase query) -- for the query that is
+  exactly what `vsQuery_refines` proves of the stand-alone program `Gen.IL.vsQuery`.
+  PARTIAL, see `generated_sweep_partial`: the contracts are hypotheses (no renaming lemma carries the stand-alone
+  refinement theorems to the inlined copies; insertion and deletion are themselves only partially refined, section 7), and
+  the two loops are not closed by induction (the idle-stack / fresh-row invariant and the event-order preconditions
+  `sweep_discipline` supplies are per-iteration hypotheses). -/
+
+/-- the generated sweep is the sweep template around its four inlined tree routines (any edit of `_viewshed_cpu_sweep` or of
+    an inlined geometry function breaks this) -/
+theorem generated_sweep_template :
+    Gen.IL.vsSweep.body = sweepBody insFill insLoop delLoop qryLoop := vsSweep_is_template
+
+/-- **the set-up of the generated sweep builds the model's initial status structure**: after it, `root = 0`, the two arrays
+    hold a well-linked tree consisting of the permanent dummy root alone (`initTree`: key 0, gradients (-1, -1, S),
+    bearings (S, S, 0), stored maximum S, black), the NIL row carries the sentinel, and the idle stack holds the rows
+    `2 … N - 1` with `N - 2` on top of its height cell; the visibility grid, `data` and the event arrays are untouched -/
+theorem generated_sweep_setup [Trig α] (s : State (NV α)) (fuel h w vc N : Nat) (hs : s.ctl = .run)
+    (shR : s.shp "raster" = [h, w]) (hvc : s.ienv "vp_col" = vc) (hvcw : vc ≤ w) (hN : (w : Int) - vc + w * h + 10 = (N : Int)) :
+    let r := exec fuel (ILVs.seqL sweepSetup) s
+    r.ctl = .run ∧ r.ienv "root" = 0 ∧
+      ILVs.Linked (r.ia "status_struct") N (-1) (.node .nil 0 .nil) ∧
+      ILVs.absT (r.fa "status_values") (r.ia "status_struct") (.node .nil 0 .nil) =
+        ILVs.mapT ILVs.emb (initTree (ILVs.smallestK : α) 0 (-1)) ∧
+      ILVs.vAt (r.fa "status_values") (N - 1) 7 = ILVs.smallest ∧
+      r.ia "idle" = idleInit N ∧ r.fa "visibility_grid" = s.fa "visibility_grid" ∧ r.fa "data" = s.fa "data" := by
+  have hwh : (0 : Int) ≤ (w : Int) * h := by positivity
+  have hN2 : 2 ≤ N := by omega
+  have st := sweepSetup_exec s fuel h w vc N hs shR hvc hvcw hN
+  obtain ⟨t1, t2, t3⟩ := setup_tree (F := NV α) N hN2
+  refine ⟨st.ctl, st.root, ?_, ?_, ?_, st.idle, (st.keepF _ (by simp)).1, (st.keepF _ (by simp)).1⟩
+  · rw [st.ss]; exact t1
+  · rw [st.sv, st.ss, t2]
+    simp [ILVs.mapT, initTree, dummy, dummyNodeF, ILVs.mapN, ILVs.emb, ILVs.smallest, ILVs.smallestK]
+  · rw [st.sv]; exact t3
+
+
+/-- non-vacuity: a 1 × 2 raster, the observer in column 0: fourteen rows, `root = 0` -/
+example [Trig ℚ] :
+    let s : State (NV ℚ) := ⟨fun _ => 0, fun _ => none, fun _ => false, fun _ => [], fun _ => [],
+      fun a => if a = "raster" then [1, 2] else [], fun _ _ _ _ _ _ => none, .run⟩
+    (exec 0 (ILVs.seqL sweepSetup) s).ienv "root" = 0 ∧ (exec 0 (ILVs.seqL sweepSetup) s).ia "idle" = idleInit 14 := by
+  intro s
+  obtain ⟨_, h2, _, _, _, h6, _⟩ := generated_sweep_setup (α := ℚ) s 0 1 2 0 14 rfl rfl rfl (by decide) (by decide)
+  exact ⟨h2, h6⟩
+
+/-- **a CENTER event of the generated sweep decides line of sight and writes the vertical angle** (over the contract of the
+    inlined query): on arrays holding the image of a tree `t0` with ordered keys and no overestimate below the root, with
+    the event's cell `(r, c)` active, the loop body writes `_get_vertical_ang` into `visibility_grid[r, c]` exactly when no
+    nearer active cell spanning the event's bearing has a greater interpolated gradient -- `query_decides` for the program --
+    and leaves the grid alone otherwise.  (`K`, `g`: the key and the centre gradient the program computes; their being
+    numbers, the key positive and the vertical angle non-negative are hypotheses: `atan` / `sqrt` are uninterpreted.) -/
+theorem generated_center_event [Trig α] (hq : QryContract (NV α) qryLoop qP) (ins del : St) (s : State (NV α))
+    (fuel n h w ne : Nat) (sh : ILVs.Sh) (r c k : Nat) (inv : EvInv s ne k) (hv : SVS s n)
+    (hL : ILVs.Linked (s.ia "status_struct") n (-1) sh) (hN : sh.idxs.Nodup) (hroot : s.ienv "root" = sh.ptr)
+    (hS : ILVs.vAt (s.fa "status_values") (n - 1) 7 = ILVs.smallest) (shV : s.shp "visibility_grid" = [h, w])
+    (hr0 : rctAt s k 0 = r) (hc0 : rctAt s k 1 = c) (hty : rctAt s k 2 = 0) (hr : r < h) (hc : c < w)
+    (hfuel : sh.size + sh.height + 2 ≤ fuel)
+    (t0 : Viewshed.Tree α) (habs : ILVs.absT (s.fa "status_values") (s.ia "status_struct") sh = ILVs.mapT ILVs.emb t0)
+    (hb : BST t0) (haq : AugLeQ ILVs.smallestK t0) (K g a : α)
+    (hkey : keyF (r : Int) (c : Int) (s.ienv "vp_row") (s.ienv "vp_col") (s.fenv "ew_res") (s.fenv "ns_res") = some K)
+    (hg : gradCellF (r : Int) (c : Int) (Fl.add (aeAt s k 2) (s.fenv "vp_target")) (s.ienv "vp_row") (s.ienv "vp_col")
+      (s.fenv "vp_elev") (s.fenv "ew_res") (s.fenv "ns_res") = some g)
+    (ha : aeAt s k 0 = some a) (hSg : ILVs.smallestK ≤ g) (hKpos : 0 < K)
+    (hact : ∃ m ∈ t0.toList, m.key = K) (hspan : ∀ m ∈ t0.toList, m.key < K → spans m a = true ∨ minv m ≤ g)
+    (hge : Fl.le (Fl.lit 0 1) (vangF (s.fenv "vp_elev") (some K) (Fl.add (aeAt s k 2) (s.fenv "vp_target"))) = true) :
+    let visible := ∀ m ∈ t0.toList, m.key < K → spans m a = true → itp m a ≤ g
+    ∃ s' : State (NV α), exec fuel (evBody ins del qryLoop) s = s' ∧ s'.ctl = .run ∧ s'.ia = s.ia ∧
+      s'.fa "status_values" = s.fa "status_values" ∧
+      (visible → s'.fa "visibility_grid" = (s.fa "visibility_grid").set (r * w + c)
+        (vangF (s.fenv "vp_elev") (some K) (Fl.add (aeAt s k 2) (s.fenv "vp_target")))) ∧
+      (¬ visible → s'.fa "visibility_grid" = s.fa "visibility_grid") := by
+  intro visible
+  have hnf : ∀ nd ∈ ILVs.predsOf (ILVs.absT (s.fa "status_values") (s.ia "status_struct") sh) ⟨(some K : NV α)⟩,
+      ¬ (⟨(some K : NV α)⟩ : ILVs.Fv (NV α)) < nd.key := by
+    rw [habs]
+    intro nd hnd
+    change nd ∈ ILVs.predsOf (ILVs.mapT ILVs.emb t0) (ILVs.emb K) at hnd
+    rw [ILVs.predsOf_emb, ILVs.predsOf_eq_filter hb] at hnd
+    obtain ⟨m, hm, rfl⟩ := List.mem_map.mp hnd
+    rw [List.mem_reverse, List.mem_filter] at hm
+    have : m.key < K := by simpa using hm.2
+    show ¬ (ILVs.emb K < ILVs.emb m.key)
+    rw [ILVs.emb_lt]
+    exact not_lt.mpr (le_of_lt this)
+  have hpos : Fl.lt (Fl.lit 0 1) (Fl.abs (some K : NV α)) = true := by simp [abs_pos.mpr (ne_of_gt hKpos)]
+  obtain ⟨ie', fe', be', hex, _, _⟩ := evBody_center hq ins del s fuel n h w ne sh r c k inv hv hL hN hroot hS shV hr0 hc0 hty hr hc
+    hfuel (by rw [hkey]; exact hnf) (by rw [hkey]; exact hpos) (by rw [hkey]; exact hge)
+  rw [hkey, hg, ha, habs] at hex
+  have hq' : (ILVs.queryP ILVs.smallest (ILVs.mapT ILVs.emb t0) ⟨(some K : NV α)⟩ ⟨some a⟩ ⟨some g⟩).v =
+      some (query ILVs.smallestK t0 K a g) := by
+    change (ILVs.queryP (ILVs.emb ILVs.smallestK) (ILVs.mapT ILVs.emb t0) (ILVs.emb K) (ILVs.emb a) (ILVs.emb g)).v = _
+    rw [ILVs.queryP_emb, ILVs.queryP_eq_query hb]
+    rfl
+  rw [hq'] at hex
+  have hdec := query_decides K a g hSg hb haq hact hspan
+  refine ⟨_, hex, rfl, rfl, by simp [setS_apply], ?_, ?_⟩
+  · intro hvis
+    have : query ILVs.smallestK t0 K a g ≤ g := hdec.mpr hvis
+    simp [setS_apply, this]
+  · intro hvis
+    have : ¬ query ILVs.smallestK t0 K a g ≤ g := fun hle => hvis (hdec.mp hle)
+    simp [setS_apply, this]
+
+/-- **the sweep by induction over the event list -- what is missing** (PARTIAL): the iteration theorems compose into "the
+    generated sweep is the model's sweep `runT` over `sweepOps`" once (i) the three contracts are discharged for the inlined
+    copies (a renaming lemma for `exec` would carry `vsQuery_refines`; `_insert_into_tree` / `_delete_from_tree` need their
+    fixup loops, section 7), (ii) the idle-stack invariant (the rows above the stack height are exactly the rows not in the
+    tree) is carried through the two loops, (iii) `sweep_discipline` is used to discharge "the key is in the tree" at EXIT /
+    CENTER and "the key is not" at ENTER.  What IS established unconditionally: the code around the tree routines. -/
+theorem generated_sweep_partial :
+    Gen.IL.vsSweep.body = ILVs.seqK sweepSetup
+      (.seq (fillLoop insFill) (.seq (.setI "nevents" (.dim "event_rcts" 0)) (.seq (evLoop insLoop delLoop qryLoop) .ret))) :=
+  vsSweep_is_template
 
 end GeneratedEvents
 
